@@ -1,5 +1,6 @@
 pub mod bld;
 pub mod dv;
+pub mod extract;
 pub mod gen;
 pub mod jv;
 pub mod proj;
